@@ -648,7 +648,7 @@ func main() {
 	rec(0, nil)
 	// bodies in which a line that only looks like a marker comes before a real one
 	for _, p := range []string{"a", "d/b"} {
-		for _, c := range []string{"\n-- \n-- a --\n", "x\n-- y\n-- m --\n", "-- y\n-- m --\n", "-- m -- \nz\n-- n --\n", "--  -- --\n", "x\n-- a -- b --\n", "-- y\n--m --\n-- m--\n", "x\n-- y\n-- z\n-- m --"} {
+		for _, c := range []string{"\n-- \n-- a --\n", "x\n-- y\n-- m --\n", "-- y\n-- m --\n", "-- m -- \nz\n-- n --\n", "--  -- --\n", "x\n-- a -- b --\n", "-- y\n--m --\n-- m--\n", "x\n-- y\n-- z\n-- m --", "a\uFFFDb\n", "\uFFFD", "é\uFFFD\n-- m --\n"} {
 			trees = append(trees, []treeFile{{p, c}}, []treeFile{{p, c}, {"z", "x\n"}})
 		}
 	}
